@@ -247,6 +247,10 @@ def hand():
         step("s1", acts=[act("a1", catches=[catch(NIL, [])])]),
         step("s2", acts=[act("a2")]),
     ])))
+    out.append(line("cancel_chain", workflow("m", [
+        step("s1", acts=[act("a1", cond=B)]),
+        step("s2", acts=[act("a2", cond=B), act("a3")]),
+    ])))
     out.append(line("no_uses", workflow("m", [
         step("s1", acts=[act("a1", uses="")]),
         step("s2"),
